@@ -65,6 +65,13 @@ class DecFloat:
     def __int__(self):
         return int(self.__float__())
 
+    def __format__(self, spec):
+        """format(value, '') is str(value); a format spec (f-string / format() in a changed formatter) is applied
+        to the realised real float"""
+        if spec == "":
+            return str(self)
+        return format(self.__float__(), spec)
+
 
 def _isdigit(ch):
     return "0" <= ch <= "9"
@@ -160,12 +167,13 @@ def _literals():
                 yield sign + ip + ("" if fp is None else "." + fp)
 
 
-def differential():
-    """parse_decimal / DecFloat against the real float on concrete texts. Returns the number of texts in the
-    modelled range that were compared (text and equality)."""
+def differential(more=()):
+    """parse_decimal / DecFloat against the real float on concrete texts (the built-in list and `more`: the
+    literals a harness builds from skeletons). Returns the number of texts in the modelled range that were
+    compared (text and equality)."""
     n = 0
     by_value = {}
-    for t in _literals():
+    for t in itertools.chain(_literals(), more):
         d = parse_decimal(t)
         if d is None:
             continue
